@@ -1,6 +1,7 @@
 package annotations
 
 import (
+	"google.golang.org/protobuf/compiler/protogen"
 	"regexp"
 	"strings"
 )
@@ -55,4 +56,43 @@ func EnsureLeadingSlash(path string) string {
 		return "/" + path
 	}
 	return path
+}
+
+// DefaultMethodPath returns the path of a method whose (sebuf.http.config) gives none:
+// /<go package>/<method_name>, or <base_path>/<method_name> under a service base path,
+// with the method name in snake_case. Every generator uses it, so that the route the Go
+// server registers is the one the clients call, the TS server publishes and the OpenAPI
+// document lists.
+func DefaultMethodPath(goPackageName, basePath, methodGoName string) string {
+	if basePath != "" {
+		return BuildHTTPPath(basePath, CamelToSnake(methodGoName))
+	}
+	return "/" + goPackageName + "/" + CamelToSnake(methodGoName)
+}
+
+// CamelToSnake converts a CamelCase identifier to snake_case (GetUser -> get_user).
+func CamelToSnake(s string) string {
+	var result []byte
+	for i, r := range s {
+		if r >= 'A' && r <= 'Z' {
+			if i > 0 {
+				result = append(result, '_')
+			}
+			result = append(result, byte(r+'a'-'A'))
+		} else {
+			result = append(result, byte(r))
+		}
+	}
+	return string(result)
+}
+
+// GoPackageName returns the Go package name protogen derived for the file that declares
+// service (from go_package or M flags); it is the first segment of default method paths.
+func GoPackageName(plugin *protogen.Plugin, service *protogen.Service) string {
+	if plugin != nil {
+		if f, ok := plugin.FilesByPath[service.Desc.ParentFile().Path()]; ok {
+			return string(f.GoPackageName)
+		}
+	}
+	return ""
 }
